@@ -233,6 +233,7 @@ void CPCA(tensor *x, int scaling, size_t npc, CPCAMODEL *model)
     }
 
     while(1){ /* loop until convergence of t */
+      LSCI_VERIF_LOOP_HEAD(2, t, NULL, NULL);
       for(k = 0; k < Eb->order; k++){
         NewDVector(&p_b, Eb->m[k]->col);
        /*
@@ -272,6 +273,7 @@ void CPCA(tensor *x, int scaling, size_t npc, CPCAMODEL *model)
       MT_MatrixDVectorDotProduct(T, w_T, t_new);
      
       /* check for convergence */
+      LSCI_VERIF_PRE_CONV(2, t_new, t);
       if(calcConvergence(t_new, t) < CPCACONVERGENCE){
         #ifdef DEBUG
         printf("new score calculated\n");
